@@ -23,7 +23,7 @@ canonical spelling, so a rule sees the same tree whichever one the author chose:
   D14 [a, b][k]                          -> the k-th element (literal sequence, constant k)
   D16 x.reshape((a, b)) -> x.reshape(a, b) (view / expand / repeat / permute / tile alike); D17 X[a:b][k] -> X[a + k]
   D18 aliases of torch sub-modules (`nn`, `F`) -> `torch.nn`, `torch.nn.functional`; D19 `x.add_(y)` as a statement -> `x += y` (sub_/mul_/div_ alike)
-  D14b (a, b, c)[1:] -> (b, c); D20 f(*(a, b)) -> f(a, b); D21 [v for v in xs] -> list(xs); D22 y = x.mul_(a).add_(b) -> x *= a; x += b; y = x
+  D14b (a, b, c)[1:] -> (b, c); D20 f(*(a, b)) -> f(a, b); D21 [v for v in xs] -> list(xs); D24 tuple([a, b]) -> (a, b); D22 y = x.mul_(a).add_(b) -> x *= a; x += b; y = x
   D15 [*xs]                              -> list(xs)
   D12 X.m(a, q=b) -> X.m(a, b) when q is the next positional parameter of every definition of method m in the package
 
@@ -185,6 +185,12 @@ class Canon(ast.NodeTransformer):
     # ------------------------------------------------------------ calls
     def visit_Call(self, node: ast.Call):
         self.generic_visit(node)
+        # D24 tuple([a, b]) -> (a, b) and list((a, b)) -> [a, b] for displays of fixed length
+        if isinstance(node.func, ast.Name) and node.func.id in ("tuple", "list") and len(node.args) == 1 and not node.keywords \
+                and isinstance(node.args[0], (ast.List, ast.Tuple)) and not _loop_built(node.args[0]) and not any(isinstance(x, ast.Starred) for x in node.args[0].elts):
+            elts = node.args[0].elts
+            new = ast.Tuple(elts=elts, ctx=ast.Load()) if node.func.id == "tuple" else ast.List(elts=elts, ctx=ast.Load())
+            return self._hit(new, node)
         # D20 f(*(a, b)) -> f(a, b)
         if any(isinstance(a, ast.Starred) and isinstance(a.value, (ast.List, ast.Tuple)) and not _loop_built(a.value) and not any(isinstance(x, ast.Starred) for x in a.value.elts) for a in node.args):
             new_args = []
